@@ -34,7 +34,13 @@ func newSrvWorld(r *Run, cfg srvCfg) *srvWorld {
 
 // C01: fault-free connection, unique ids, every member kind.
 func scenarioC01(r *Run) {
-	w := newSrvWorld(r, srvCfg{Prop: "C01", MaxMsgs: 6, MaxBatch: 4, Invalid: true, Unknown: true, RPCInfo: true, HoldP: 0.35, NoteP: 0.25, KMax: 4})
+	cfg := srvCfg{Prop: "C01", MaxMsgs: 6, MaxBatch: 4, Invalid: true, Unknown: true, RPCInfo: true, HoldP: 0.35, NoteP: 0.25, KMax: 4}
+	if r.Gen.Chance("withpush", 0.4) {
+		// server pushes interleaved with the client's calls, whose ids then count
+		// from 1 like the server's callback ids
+		cfg.Pushes, cfg.SeqIDs, cfg.AnswerAll = 3, true, true
+	}
+	w := newSrvWorld(r, cfg)
 	w.start()
 	if !w.drive(nil) {
 		return
